@@ -165,6 +165,28 @@ def _seq_chunk(chunk):
                 fails.append({'case': casej, 'stage': 'sequence', 'detail': 'internal error: ' + (r.stdout + r.stderr)[-300:]})
                 continue
             got = dict(re.findall(r'Message: R(\d+) (\S+)', r.stdout))
+            # what each lookup must yield, from the statement: an overriding subproject wins; otherwise the system copy (1.0) when it meets the
+            # constraint — also for a lookup that follows one the system could NOT satisfy —, otherwise the fallback when the call names one
+            # (configuring the subproject, which then overrides the name), otherwise not found.  A name once resolved to the system stays there.
+            state = 'none'
+            for i, c in enumerate(seq):
+                g = got.get(str(i))
+                if g is None:
+                    break
+                sys_ok = '>=2' not in CALLS[c]
+                if state == 'sp':
+                    want = '3.0/fallback'
+                elif state == 'sys':
+                    want = '1.0/system' if sys_ok else 'notfound'
+                elif sys_ok:
+                    want, state = '1.0/system', 'sys'
+                elif 'fallback:' in CALLS[c]:
+                    want, state = '3.0/fallback', 'sp'
+                else:
+                    want = 'notfound'
+                if g != want:
+                    fails.append({'case': casej, 'stage': 'sequence-value', 'detail': f'call #{i} {CALLS[c]} yields {g!r}; with the system offering 1.0, the fallback 3.0 and the lookups before it the policy gives {want!r}'})
+                    break
             seen = {}
             for i, c in enumerate(seq):
                 g = got.get(str(i))
@@ -216,11 +238,13 @@ def run(REG, tier, seed, jobs):
     seqs = [s_ for n_ in (2, 3) for s_ in itertools.product(list(CALLS), repeat=n_) if len(set(s_)) < len(s_)]
     if tier == 'quick':
         seqs = random.Random(seed).sample(seqs, 60)
+    # every ordered PAIR of call forms as well (the value of the second lookup after a first one of another form)
+    seqs = seqs + [s_ for s_ in itertools.product(list(CALLS), repeat=2) if s_[0] != s_[1]]
     sev, snt, sfails = pmap(_seq_chunk, chunked(iter(seqs), 4), jobs)
     late = [(c, w) for c in ('plain', 'optional', 'older-ok', 'with-fallback') for w in ('top', 'subproject')]
     lev, lnt, lfails = pmap(_late_override_chunk, chunked(iter(late), 1), jobs)
     extra = [{'name': 'C10/bounded/lookup-sequences-consistent', 'function': 'dependency() several times in one meson setup (system foo 1.0 through pkg-config, fallback subproject offering 3.0)',
-              'bound': f'{len(seqs)} sequences of 2-3 lookups over {len(CALLS)} call forms ({", ".join(CALLS)}) in which some call form occurs twice' + (' (random sample in the quick tier)' if tier == 'quick' else ' (all)'),
+              'bound': f'{len(seqs)} sequences of 2-3 lookups over {len(CALLS)} call forms ({", ".join(CALLS)}) in which some call form occurs twice, plus every ordered pair of different call forms; identical calls agree AND every lookup yields what the policy gives after the lookups before it' + (' (random sample in the quick tier)' if tier == 'quick' else ' (all)'),
               'evaluations': sev, 'distinct_nontrivial': snt, 'rule': 'every sequence', 'exhaustive': tier != 'quick', 'failures': sfails},
              {'name': 'C10/bounded/late-override-refused', 'function': 'dependency() then meson.override_dependency() of the same name (top level / in a subproject) then dependency() again',
               'bound': f'{len(late)} cases: 4 call forms that resolve to the system dependency x override made at top level or by a subproject', 'evaluations': lev, 'distinct_nontrivial': lnt,
